@@ -16,7 +16,8 @@ Inductive action :=
 | AFrames (c : conn) (es : list ev)      (* bytes written by the client: EIdentify / EReq events in frame order *)
 | AHangup (c : conn)                     (* the client closes its end *)
 | ARelease (n : N) (ok : bool)           (* the parked modulator call n is answered *)
-| AExpire (c : conn) (id : N).           (* request_timeout of the request with this id on connection c expires *)
+| AExpire (c : conn) (id : N)            (* request_timeout of the request with this id on connection c expires *)
+| ADirect (targets : list user) (payload : N).   (* the modulator pushes a private payload *)
 
 Record xop := {
   x_acts : list action;
@@ -49,6 +50,7 @@ Definition cout_eqb (a b : cout) : bool :=
   | OMembers c i l, OMembers c' i' l' => (c =? c') && (i =? i') && N_list_eqb l l'
   | OChannels c i l, OChannels c' i' l' => (c =? c') && (i =? i') && N_list_eqb l l'
   | OAcl c i l, OAcl c' i' l' => (c =? c') && (i =? i') && N_list_eqb l l'
+  | ODirect c p, ODirect c' p' => (c =? c') && (p =? p')
   | OModEvent k ch u o, OModEvent k' ch' u' o' => (k =? k') && (ch =? ch') && (u =? u') && Bool.eqb o o'
   | OModPayload f ch p, OModPayload f' ch' p' => (f =? f') && (ch =? ch') && (p =? p')
   | _, _ => false
@@ -87,7 +89,7 @@ Definition lenient_eqb (obs prod : list cout) : bool :=
 
 Definition conn_of_out (o : cout) : option conn :=
   match o with
-  | OAck c _ _ | OErr c _ _ | OClose c _ | OEvent c _ _ _ _ | OMsg c _ _ _ | OMembers c _ _ | OChannels c _ _ | OAcl c _ _ => Some c
+  | OAck c _ _ | OErr c _ _ | OClose c _ | OEvent c _ _ _ _ | OMsg c _ _ _ | OMembers c _ _ | OChannels c _ _ | OAcl c _ _ | ODirect c _ => Some c
   | _ => None
   end.
 
@@ -149,7 +151,7 @@ Inductive choice :=
                                     request's future and the cancellation in random order), then dropped *)
 
 Definition act_conn (a : action) : option conn :=
-  match a with AFrames c _ => Some c | AHangup c => Some c | ARelease _ _ => None | AExpire _ _ => None end.
+  match a with AFrames c _ => Some c | AHangup c => Some c | ARelease _ _ => None | AExpire _ _ => None | ADirect _ _ => None end.
 
 (* an action is eligible when no earlier pending action concerns the same connection *)
 Fixpoint eligible_acts (i : nat) (seen : list conn) (l : list action) : list choice :=
@@ -169,6 +171,7 @@ Fixpoint hanging (seen : list conn) (l : list action) : list conn :=
   | AFrames c _ :: r => hanging (c :: seen) r
   | ARelease _ _ :: r => hanging seen r
   | AExpire _ _ :: r => hanging seen r
+  | ADirect _ _ :: r => hanging seen r
   end.
 
 Definition req_id (p : pc) : N :=
@@ -240,6 +243,7 @@ Definition apply_choice (cf : ccfg) (gone : list conn) (hs : list N) (st : xst) 
                           closing := closing st0; pending := pending st0; script := script st0; got := got st0; gotmod := gotmod st0 |}]
           | None => [st0]
           end
+      | Some (ADirect ts p) => [apply_events cf gone st0 [EDirect ts p]]
       | Some (AExpire c id) =>
           match task_of_req (xs st0) c id with
           | Some t => [apply_events cf gone {| xs := xs st0; parked := parked st0; answered := filter (fun e => negb (fst e =? t)) (answered st0);
